@@ -159,14 +159,21 @@ def main(argv=None):
     if not a.no_evidence and not a.only:
         os.makedirs(os.path.join(HERE, 'evidence'), exist_ok=True)
         json.dump(ev, open(os.path.join(HERE, 'evidence', f'{pid}.json'), 'w'), indent=1, default=str)
-    for l in lines:
+    for l in lines[:40]:
         print(l)
+    if len(lines) > 40:
+        print(f'... {len(lines) - 40} more VIOLATION/KNOWN-FINDING lines (all replay files are under replays/)')
     if a.verbose or und or crashes or viol:
+        shown = 0
         for r in results:
             if a.verbose or r['status'] not in ('proved', 'cover_ok', 'bounded_ok'):
+                shown += 1
+                if shown > 12 and not a.verbose:
+                    print('  ... (more; use -v)')
+                    break
                 extra = ''
                 if r['status'] not in ('proved', 'cover_ok', 'bounded_ok'):
-                    extra = ' ' + json.dumps(r['detail'], default=str)[:1500]
+                    extra = ' ' + json.dumps(r['detail'], default=str)[:(1500 if a.verbose else 400)]
                 print(f"  [{r['status']:>10}] {r['name']} ({r['solver']}, {r['time_s']}s){extra}")
     for n, c in crashes:
         print(f'CHECKER-CRASH clause={n}\n{c}')
